@@ -766,8 +766,11 @@ func crossConnection(rep *Report, distinct map[string]bool, r *rand.Rand, tier s
 		if cut >= len(a) {
 			cut = len(a) - 1
 		}
-		// some connection decodes a batch of quiet gets
+		// some connection decodes a batch of quiet gets; others connected and left without a byte,
+		// or in the middle of a header
 		parseAll(batch)
+		parseAll(nil)
+		parseAll(b[:10])
 		pr, pw := io.Pipe()
 		got := make(chan string, 1)
 		go func() {
